@@ -23,9 +23,9 @@ M("tp21_send_before_state", ["C01", "C08"], "J1939-21: DT sent before the send s
   ("j1939/j1939_21.py",
    """                            # state is ready for recv - Now send the message
                             self.__send_tp_dt(buf['src_address'], buf['dest_address'], data)
-                            if should_break:""",
+                            if self._minimum_tp_rts_cts_dt_interval != None:""",
    """                            # state is ready for recv - Now send the message
-                            if should_break:"""))
+                            if self._minimum_tp_rts_cts_dt_interval != None:"""))
 
 M("tp21_packets_off_by_one_mod7", ["C01", "C03"], "packet count one too many when len % 7 == 0",
   ("j1939/j1939_21.py",
@@ -195,7 +195,8 @@ M("dm14_busy_answer_stale_error", ["C19"], "D37 reverted: busy answer repeats th
 M("aac_no_range_check", ["C13"], "D38 reverted: an arbitrary-address-capable CA walks past 253",
   ("j1939/controller_application.py", "if (self._name.arbitrary_address_capable == False) or (self._device_address_announced >= 253):", "if self._name.arbitrary_address_capable == False:"))
 M("dm1_cycle_ignores_ca_state", ["C13"], "D39 reverted: the DM1 cycle calls send_pgn whatever the CA's state",
-  ("j1939/diagnostic_messages.py", "        if self._ca.state != j1939.ControllerApplication.State.NORMAL:", "        if False:"))
+  ("j1939/diagnostic_messages.py", "        if self._ca.state != j1939.ControllerApplication.State.NORMAL:\n            # no address (yet, or any more)", "        if False:\n            # no address (yet, or any more)"),
+  ("j1939/diagnostic_messages.py", "            # the address was lost while the data callback was running\n            return True\n", "            pass\n"))
 M("dm14_client_state_after_send", ["C17"], "D40 reverted (read): WAIT_FOR_SEED set after the request is written",
   ("j1939/Dm14Query.py", "        self.command = Command.READ\n        self._ca.subscribe(self._parse_dm15)\n        # state first: the answer may be processed before the send call returns\n        self.state = QueryState.WAIT_FOR_SEED\n        self._send_dm14(self.user_level)\n",
    "        self.command = Command.READ\n        self._ca.subscribe(self._parse_dm15)\n        self._send_dm14(self.user_level)\n        self.state = QueryState.WAIT_FOR_SEED\n"))
@@ -351,12 +352,12 @@ M("cannot_claim_state_not_set", ["C13", "C04"], "fixed loser keeps state NORMAL 
 
 M("request_dispatch_any_state", ["C14"], "request dispatched regardless of the CA's claim state",
   ("j1939/controller_application.py", "        if (self.state != ControllerApplication.State.NORMAL) or ((self._device_address != dest_address) and (dest_address != j1939.ParameterGroupNumber.Address.GLOBAL)):", "        if ((self._device_address != dest_address) and (dest_address != j1939.ParameterGroupNumber.Address.GLOBAL)):"),
-  ("j1939/j1939_21.py", "            for ca in self._cas:\n                if ca.message_acceptable(dest_address):\n                    ca._process_request(mid, dest_address, data, timestamp)", "            for ca in self._cas:\n                ca._process_request(mid, dest_address, data, timestamp)"))
+  ("j1939/j1939_21.py", "            for ca in list(self._cas):\n                if ca.message_acceptable(dest_address):\n                    ca._process_request(mid, dest_address, data, timestamp)", "            for ca in list(self._cas):\n                ca._process_request(mid, dest_address, data, timestamp)"))
 M("request_pgn_16bit", ["C14"], "requested PGN parsed from two bytes only",
   ("j1939/controller_application.py", "        pgn = data[0] | (data[1] << 8) | (data[2] << 16)\n        src_address = mid.source_address\n\n        if (self.state", "        pgn = data[0] | (data[1] << 8)\n        src_address = mid.source_address\n\n        if (self.state"))
 M("request_to_all_cas_of_stack", ["C14", "C05"], "a destination-specific request reaches every CA of the owning stack",
   ("j1939/controller_application.py", "or ((self._device_address != dest_address) and (dest_address != j1939.ParameterGroupNumber.Address.GLOBAL)):", "or False:"),
-  ("j1939/j1939_21.py", "            for ca in self._cas:\n                if ca.message_acceptable(dest_address):\n                    ca._process_request(mid, dest_address, data, timestamp)", "            for ca in self._cas:\n                ca._process_request(mid, dest_address, data, timestamp)"))
+  ("j1939/j1939_21.py", "            for ca in list(self._cas):\n                if ca.message_acceptable(dest_address):\n                    ca._process_request(mid, dest_address, data, timestamp)", "            for ca in list(self._cas):\n                ca._process_request(mid, dest_address, data, timestamp)"))
 M("request_claim_dp1_answered", ["C14"], "PGN 0x1EE00 treated as the address-claim PGN",
   ("j1939/controller_application.py", "        if pgn==j1939.ParameterGroupNumber.PGN.ADDRESSCLAIM:\n            # answer the request with our name...", "        if (pgn & 0xFFFF)==j1939.ParameterGroupNumber.PGN.ADDRESSCLAIM:\n            # answer the request with our name..."))
 M("request_encoding_be", ["C14"], "request data big-endian",
